@@ -71,6 +71,14 @@ TimeCases ==
       porder |-> <<2, 1>>, aorder |-> <<1, 2>>] :
         x \in {y \in SeqsOf([g : TimeGeoms, cls : {1}], 2) \X SeqsOf([g : TimeGeoms, sc : {<<3, 1>>}], 2) :
                   Len(y[1]) + Len(y[2]) <= 3 /\ Len(y[1]) >= 1 /\ Len(y[2]) >= 1}}
+\* zero-length intervals at two instants and a zero-duration box: at different instants they do not overlap (affinity 0,
+\* unpaired); at the same instant the ratio is 0/0 and either outcome is accepted (PairAffinity is vacuous there)
+ZeroGeoms == {<<G("TimeInterval", <<2, 2>>)>>, <<G("TimeInterval", <<5, 5>>)>>, <<G("BoundingBox", <<5, 1, 5, 3>>)>>, <<I1>>}
+ZeroCases ==
+    {[kind |-> "lat", vocab |-> 2, clips |-> <<Anchor, [id |-> 2, anns |-> x[1], preds |-> x[2]]>>,
+      porder |-> <<2, 1>>, aorder |-> <<1, 2>>] :
+        x \in {y \in SeqsOf([g : ZeroGeoms, cls : {1}], 2) \X SeqsOf([g : ZeroGeoms, sc : {<<3, 1>>}], 2) :
+                  Len(y[1]) + Len(y[2]) <= 3 /\ Len(y[1]) >= 1 /\ Len(y[2]) >= 1}}
 \* "terms": vocabularies, annotation tags and predicted tags over tags whose terms share a label or a name (Detection: tag table)
 VocOpts  == {<<1, 4>>, <<1, 2>>, <<2, 1>>, <<3, 1>>, <<4, 3>>, <<2, 3>>}
 ATagOpts == {<<>>, <<1>>, <<2>>, <<3>>, <<4>>, <<2, 1>>}
@@ -81,7 +89,7 @@ TermCases ==
       porder |-> <<2, 1>>, aorder |-> <<1, 2>>] : v \in VocOpts, a \in ATagOpts, p \in PTagOpts}
 Cases == CASE Universe = "events" -> EventCases
            [] Universe = "clips"  -> ClipCases
-           [] Universe = "extra"  -> HoleCases \cup TermCases \cup TimeCases
+           [] Universe = "extra"  -> HoleCases \cup TermCases \cup TimeCases \cup ZeroCases
 
 (* ---- rationals ---- *)
 RMean(s) ==     \* mean of a sequence of rationals, <<0, 1>> for the empty sequence (_mean returns 0.0)
